@@ -21,6 +21,17 @@ CLAIMED = {
         ref="DESIGN.md section 4 C17"),
 }
 
+CLAIMED['C20'] = dict(
+    technique="Coq proof by induction over operation histories on a hand-written executable model, tied by translator T-G and differential runs",
+    text=("Coq theorems (closed under the global context) about an executable model of ConfigValue/ConfigMeta: precedence explicit > "
+          "environment > default, per-operation effect and frame over arbitrary histories, delete restores, falsy values honoured, "
+          "atomic bulk update, parse round trips (bool any case/blanks, decimal numerals, lists/tuples, key=value mappings, enums). "
+          "The test/source order and update mode are regenerated from config.py each run; the model is executed by vm_compute on "
+          "the same random histories as the real classes."),
+    note=("Trusted: Coq kernel (no axioms); translator T-G; correspondence harness (600 quick / 3000 thorough histories); float() "
+          "and custom parsers are oracles; ASCII text only."),
+    ref="DESIGN.md section 4 C20")
+
 NOT_YET = {}
 
 
